@@ -1681,6 +1681,13 @@ func scTargeted(r *rand.Rand, w []scItem) []scArrangement {
 				out = append(out, scArrangement{[][]scItem{append([]scItem{sc}, c...)}, "type-named-like-a-directive-one-document"})
 				out = append(out, scArrangement{[][]scItem{append([]scItem{sc}, c[:j+1]...), append([]scItem{}, c[j+1:]...)}, "type-named-like-a-directive-earlier-load"})
 				out = append(out, scArrangement{[][]scItem{append([]scItem{}, c[:j+1]...), append([]scItem{sc}, c[j+1:]...)}, "type-named-like-a-directive-with-the-use"})
+				if c[ti].K == kObject {
+					// ... and referred to as a field type before it is defined, the directive known from the earlier load
+					c2 := scCopy(c)
+					c2[ti].Fields = append(c2[ti].Fields, scField{N: 688, T: scT{N: 800 + w[j].N}})
+					out = append(out, scArrangement{[][]scItem{append([]scItem{}, c2[:j+1]...), append(append([]scItem{}, c2[j+1:]...), sc)}, "type-named-like-a-directive-used-before-defined"})
+					out = append(out, scArrangement{[][]scItem{append(append([]scItem{}, c2...), sc)}, "type-named-like-a-directive-used-before-defined-one-document"})
+				}
 				done = true
 				break
 			}
